@@ -183,9 +183,20 @@ def calculate_viability_and_necessity(graph: AttackGraph) -> None:
     graph       - the attack graph for which we wish to determine the
                   viability and necessity statuses for the nodes.
     """
+    # The propagation below only ever lowers labels and reads the labels of
+    # all parents of a step. Start from the default for the steps and from
+    # the current status for defenses and existence steps, so that the
+    # outcome does not depend on what an earlier analysis (made before a
+    # defense or existence status changed) or a file left behind.
+    for node in graph.nodes:
+        if node.type in ['or', 'and']:
+            node.is_viable = True
+            node.is_necessary = True
+        elif node.type in ['exist', 'notExist', 'defense']:
+            evaluate_viability_and_necessity(node)
+
     for node in graph.nodes:
         if node.type in ['exist', 'notExist', 'defense']:
-            evaluate_viability_and_necessity(node)
             if not node.is_viable:
                 propagate_viability_from_node(node)
             if not node.is_necessary:
